@@ -123,7 +123,7 @@ theorem setupAsset_inv (v : Version) (env : Env) (s : PyState) (a : Nat) (arg : 
   | scaled p base =>
     obtain ⟨x, hx, hx1, hx2⟩ := scaled_sub hI h
     simp only [setupAsset, h, hx, List.headD_cons]
-    rcases hbp : buildPlain v.rederive s.grids x.grid x.start x.stop base.freq base.wacc
+    rcases hbp : buildPlain v.rederive s.grids x.grid (clipStart x.start p.start) (clipStop x.stop p.stop) base.freq base.wacc
         (match arg with | some g => some g | none => if v.scaledOwnGrid = true then (s.assets a).grid else none) with ⟨G, bptr, r⟩
     cases r with
     | error e => exact inv_upd hI a _ _ (by simp [h, Asset.subs, win, pwin, hx1, hx2])
